@@ -328,9 +328,9 @@ let run_ar next_line size cap =
 (* ------------------------------------------------------------------ xattr writer *)
 let run_xw next_line =
   let b = ref { bh_next = N0; bh_cells = [] } in
-  let (r, h) = xw_create_a !hp in
+  let (r, h) = xw_create2_a !hp in
   hp := h;
-  let xw : axw option ref = ref r in
+  let xw : axw2 option ref = ref r in
   Printf.printf "init %s\n" (if r = None then "null" else "ok");
   let dump_table name (st : astr) =
     let c = st.as_core in
@@ -344,7 +344,7 @@ let run_xw next_line =
     print_string " ]" in
   let destroy () =
     match !xw with
-    | Some w -> let (b', h') = xw_destroy_a !b w !hp in b := b'; hp := h'; xw := None
+    | Some w -> let (b', h') = xw_destroy2_a !b w !hp in b := b'; hp := h'; xw := None
     | None -> () in
   let continue = ref true in
   while !continue do
@@ -353,17 +353,42 @@ let run_xw next_line =
     | Some (_ :: op :: args) ->
       (match !xw with
        | None -> Printf.printf "%s noobj\n" op
-       | Some w ->
+       | Some w2 ->
+         let w = w2.x2_w in
          (match op, args with
           | "b", _ ->
-            let w' = xw_begin_a w in
-            xw := Some w'; Printf.printf "b ret=0 start=%s\n" (string_of_n w'.xw_start)
+            let w' = xw_begin2_a w2 in
+            xw := Some w'; Printf.printf "b ret=0 start=%s\n" (string_of_n w'.x2_w.xw_start)
           | "a", (k :: rest) ->
             let v = match rest with v :: _ -> v | [] -> "" in
-            (match xw_add_kv_a fixed !b w (unhex k) (unhex v) !hp with
-             | SOk (((b', w'), ret), h') -> b := b'; hp := h'; xw := Some w'; Printf.printf "a ret=%d\n" (int_of_z ret)
+            (match xw_add_kv_chk_a fixed !b w (unhex k) (unhex v) !hp with
+             | SOk (((b', w'), ret), h') ->
+               b := b'; hp := h'; xw := Some { w2 with x2_w = w' }; Printf.printf "a ret=%d\n" (int_of_z ret)
              | SCrash -> print_string "a CRASH\n"
              | SOutOfFuel -> print_string "a OUTOFFUEL\n")
+          | ("e" | "E"), _ ->
+            print_string op;
+            let tries = ref (if op = "E" then 2 else 1) in
+            while !tries > 0 do
+              decr tries;
+              (match !xw with
+               | None -> ()
+               | Some cur ->
+                 (match xw_end_a cur !hp with
+                  | EOk (w', ret, out, h') ->
+                    hp := h'; xw := Some w';
+                    if ret = Z0 then begin
+                      Printf.printf " ret=0 out=%s" (match out with Some i -> string_of_n i | None -> "UNASSIGNED");
+                      tries := 0
+                    end else
+                      Printf.printf " ret=%d out=%s" (int_of_z ret) (match out with None -> "-" | Some _ -> "ASSIGNED")
+                  | ECrash -> print_string " CRASH"; tries := 0))
+            done;
+            print_string "\n"
+          | "f", _ ->
+            (match xw_flush_a !b w2 !hp with
+             | (Some ret, h') -> hp := h'; Printf.printf "f ret=%d\n" (int_of_z ret)
+             | (None, h') -> hp := h'; print_string "f CRASH\n")
           | "d", _ ->
             Printf.printf "d%s" (id_str "xid" (Some w.xw_id));
             dump_table "keys" w.xw_keys;
@@ -372,6 +397,16 @@ let run_xw next_line =
             Printf.printf " pairs[%s count=%s used=%s start=%s :" (id_str "id" p.aa_id) (string_of_n p.aa_core.a_count)
               (string_of_n p.aa_core.a_used) (string_of_n w.xw_start);
             List.iter (fun e -> Printf.printf " %s" (string_of_n e)) p.aa_core.a_data;
+            print_string " ]";
+            let t = w2.x2_tree in
+            Printf.printf " tree[ ks=%s ksp=%s vs=%s nb=%s :" (string_of_n t.rb_key_size) (string_of_n t.rb_key_size_padded)
+              (string_of_n t.rb_value_size) (string_of_n w2.x2_num);
+            List.iter (fun ((((id, red), depth), voff), data) ->
+                Printf.printf " %s/%d/%s/%s/%s/%s" (string_of_n id) (if red then 1 else 0) (string_of_n depth)
+                  (string_of_n (key_start data)) (string_of_n (key_count data)) (string_of_n (elem_idx ((id, voff), data))))
+              (dump t.rb_root N0);
+            print_string " ] chain[";
+            List.iter (fun id -> Printf.printf " %s" (string_of_n id)) w2.x2_chain;
             print_string " ]\n"
           | "x", _ -> destroy (); print_string "x\n"
           | _ -> print_string "?\n"))
